@@ -5,6 +5,7 @@ package syncer
 import (
 	"context"
 	"errors"
+	"sync"
 	"time"
 
 	"github.com/PowerDNS/lightningstream/config"
@@ -16,6 +17,7 @@ import (
 
 // vStore is an in-memory bucket with a log of all mutations and a scripted fault schedule.
 type vStore struct {
+	mu    sync.Mutex // natively the receiver's background goroutine lists concurrently
 	names []string
 	blobs [][]byte
 	log   []vStoreOp
@@ -41,6 +43,8 @@ func (st *vStore) find(name string) int {
 }
 
 func (st *vStore) List(ctx context.Context, prefix string) (simpleblob.BlobList, error) {
+	st.mu.Lock()
+	defer st.mu.Unlock()
 	if st.failList > 0 {
 		st.failList--
 		st.log = append(st.log, vStoreOp{"list", prefix, false})
@@ -57,6 +61,8 @@ func (st *vStore) List(ctx context.Context, prefix string) (simpleblob.BlobList,
 }
 
 func (st *vStore) Load(ctx context.Context, name string) ([]byte, error) {
+	st.mu.Lock()
+	defer st.mu.Unlock()
 	if st.failLoad > 0 {
 		st.failLoad--
 		st.log = append(st.log, vStoreOp{"load", name, false})
@@ -71,6 +77,8 @@ func (st *vStore) Load(ctx context.Context, name string) ([]byte, error) {
 }
 
 func (st *vStore) Store(ctx context.Context, name string, data []byte) error {
+	st.mu.Lock()
+	defer st.mu.Unlock()
 	if st.failStore > 0 {
 		st.failStore--
 		st.log = append(st.log, vStoreOp{"store", name, false})
@@ -98,6 +106,8 @@ func (st *vStore) Store(ctx context.Context, name string, data []byte) error {
 }
 
 func (st *vStore) Delete(ctx context.Context, name string) error {
+	st.mu.Lock()
+	defer st.mu.Unlock()
 	if st.failDelete > 0 {
 		st.failDelete--
 		st.log = append(st.log, vStoreOp{"delete", name, false})
